@@ -14,6 +14,11 @@ func init() {
 	props["C02"] = lib("seeded histories on propagation-heavy layouts (edge, four-level, ratio equal to the finer point count) with explicit-archive writes; after every write the raw state of every coarser level is compared with the model's propagation of the observed finer state. Non-trivial: an aggregate was stored or skipped (by xff or zero known values) at some level; distinct = distinct case hash")
 	props["C03"] = lib("seeded histories of single updates with ages across every retention boundary and of batches mixing in-range, too-old, boundary and duplicate points routed to the best or a named archive; raw slots of all archives before/after each call are compared with the routing model. Non-trivial: boundary-age update, batch mixing stale and fresh points, batch spanning 3 archives; distinct = distinct case hash")
 	props["C04"] = lib("each run is one layout, one clock value and 8-40 queries (boundary x boundary ages around now and every retention edge, random pairs, degenerate, sub-step, from>until, from=0; every archive id in [-3,n+2] and best), each issued against a never-written, a partially written and a fully written file of the layout and compared with the shape model. Non-trivial: a degenerate window on a never-written archive, a window clamped at both ends, or best selecting a coarser archive; distinct = distinct case hash")
+	c13 := lib("each run is 2-5 actors (writers doing read-modify-write of a generation stamp over every slot of a multi-page archive, readers, abandoners, openers that fail after the descriptor was obtained) performing up to 14 sessions on one file under the seeded scheduler with statement-level preemption; invariants after every event, final counter, lock-lifetime probes and a porcupine linearizability check of the session history. Non-trivial: lock contention actually occurred (an opener parked in the lock hook while a handle was held) or a failed open was probed; distinct = distinct case hash; distinct interleavings = distinct context-switch signatures")
+	c13.quick = tierCfg{runs: 3000, budget: 45}
+	c13.thorough = tierCfg{runs: 300000, budget: 1200}
+	c13.technique = "deterministic simulation: seeded scheduler over statement-level yield points, real flock with simulated waiting, porcupine linearizability check of recorded session histories"
+	props["C13"] = c13
 	c05 := lib("seeded histories of writes interleaved with Sync on multi-page layouts; every operation boundary of every history is an abandonment point (file bytes compared with the last synced bytes; history replayed up to the boundary on a fresh file, handle closed without Sync, file re-read). Non-trivial: abandonment after a sync with later writes, sync with pending writes, slot straddling a page; distinct = distinct case hash")
 	c05.level = "fault_enumeration"
 	c05.quick = tierCfg{runs: 1500, budget: 40}
